@@ -138,10 +138,7 @@ pub fn read_only(op: u8) {
 
 pub fn twin() {
     let mut ex = world_of(b"s");
-    let before = snap(&ex, "s");
-    let v = sds1(b'z');
-    let r = ex.verif_append("s", &v);
-    let after = snap(&ex, "s");
-    vcheck!(before == after, "twin:reachable");
-    std::mem::forget((r, ex, v));
+    let r = ex.verif_strlen("s");
+    vcheck!(is_err(&r), "twin:reachable");
+    std::mem::forget((r, ex));
 }
